@@ -140,16 +140,40 @@ def check_header(acc, g):
                           ("application_id", 4, "app_id"), ("hop_by_hop", 4, "hbh"), ("end_to_end", 4, "e2e")):
         kw[k] = f[key] if r.random() < 0.6 else f[key].to_bytes(width, "big")
     want = R.encode(R.LMsg(f["version"], f["flags"], f["code"], f["app_id"], f["hbh"], f["e2e"], []))
-    h = DiameterHeader(**kw)
     acc.counters["header_dumps"] += 1
-    got = h.dump()
-    if got != want or bytes(h) != want or len(h) != 20 or h.copy().dump() != want:
+    try:
+        h = DiameterHeader(**kw)
+        got = h.dump()
+        views_ok = bytes(h) == want and len(h) == 20 and h.copy().dump() == want
+    except BaseException as ex:
+        # every field value here is in its domain (0 .. max of the field's width, as int or as bytes)
+        acc.violation("header-encoding-raises", "DiameterHeader(%r): %r" % (kw, ex), {"kwargs": {k: (v.hex() if isinstance(v, bytes) else v) for k, v in kw.items()}})
+        return
+    if got != want or not views_ok:
         acc.violation("header-encoding", "DiameterHeader(%r).dump() = %s want %s" % (kw, got.hex(), want.hex()),
                       {"kwargs": {k: (v.hex() if isinstance(v, bytes) else v) for k, v in kw.items()}})
     getters = (h.get_version(), h.get_flags(), h.get_command_code(), h.get_application_id(), h.get_hop_by_hop(), h.get_end_to_end())
     if getters != (f["version"], f["flags"], f["code"], f["app_id"], f["hbh"], f["e2e"]):
         acc.violation("header-getters", "getters %r for fields %r" % (getters, f), {"fields": f})
     acc.case("header/%s" % "".join("b" if isinstance(v, bytes) else "i" for v in kw.values()))
+    # the same fields re-assigned through the attribute setters of a live header (int or bytes): the header then carries the
+    # new values, each of them
+    f2 = g.header_fields()
+    h2 = DiameterHeader(**kw)
+    try:
+        for k, width, key in (("version", 1, "version"), ("flags", 1, "flags"), ("command_code", 3, "code"),
+                              ("application_id", 4, "app_id"), ("hop_by_hop", 4, "hbh"), ("end_to_end", 4, "e2e")):
+            setattr(h2, k, f2[key] if r.random() < 0.6 else f2[key].to_bytes(width, "big"))
+        got2 = h2.dump()
+    except BaseException as ex:
+        acc.violation("header-setter-raises", "fields %r assigned to a live header: %r" % (f2, ex), {"fields": f2, "kwargs_before": {k: (v.hex() if isinstance(v, bytes) else v) for k, v in kw.items()}})
+        return
+    acc.counters["header_fields_reassigned"] += 1
+    want2 = R.encode(R.LMsg(f2["version"], f2["flags"], f2["code"], f2["app_id"], f2["hbh"], f2["e2e"], []))
+    if got2 != want2:
+        acc.violation("header-encoding-after-setters", "header re-assigned to %r dumps %s want %s" % (f2, got2.hex(), want2.hex()),
+                      {"fields": f2, "kwargs_before": {k: (v.hex() if isinstance(v, bytes) else v) for k, v in kw.items()}})
+        return
     # the Command Flags are also set bit by bit: each setter changes its own bit and nothing else, the predicates read the
     # same byte, and the header serialises with it.  A setter may refuse (library error) what its rules exclude - R with E,
     # a bit that is already in the requested state - and then leaves the header as it was.
